@@ -165,6 +165,9 @@ func (s *MemoryStore) Enqueue(env Envelope) error {
 	now := s.nowFn()
 	s.maybePruneLocked(now)
 
+	// Evictions made for this enqueue are undone if the enqueue is refused, so
+	// that a refused enqueue never drops queued messages.
+	var dropped []*Envelope
 	if s.maxDepth > 0 {
 		activeCount := s.activeCountLocked()
 		activeDeliveredCount := s.activeDeliveredCountLocked()
@@ -172,15 +175,19 @@ func (s *MemoryStore) Enqueue(env Envelope) error {
 			if s.dropPolicy != "drop_oldest" {
 				return ErrQueueFull
 			}
-			if !s.dropOldestQueuedLocked() {
+			victim := s.dropOldestQueuedLocked()
+			if victim == nil {
+				s.restoreDroppedLocked(dropped)
 				return ErrQueueFull
 			}
+			dropped = append(dropped, victim)
 			activeCount = s.activeCountLocked()
 			activeDeliveredCount = s.activeDeliveredCountLocked()
 		}
 	}
 
 	if pressure := s.memoryPressureStatusLocked(); pressure.Active {
+		s.restoreDroppedLocked(dropped)
 		s.memoryPressureRejects++
 		return ErrMemoryPressure
 	}
@@ -189,6 +196,7 @@ func (s *MemoryStore) Enqueue(env Envelope) error {
 		env.ID = newHexID("evt_")
 	}
 	if _, exists := s.items[env.ID]; exists {
+		s.restoreDroppedLocked(dropped)
 		return ErrEnvelopeExists
 	}
 	if env.State == "" {
@@ -291,18 +299,24 @@ func (s *MemoryStore) EnqueueBatch(items []Envelope) (int, error) {
 		prepared = append(prepared, &cpy)
 	}
 
-	// Handle depth overflow with drop_oldest.
+	// Handle depth overflow with drop_oldest. Evictions are undone if the batch
+	// is refused after all (all-or-nothing also covers the evicted messages).
+	var dropped []*Envelope
 	if s.maxDepth > 0 {
 		for activeCount+len(prepared) > s.maxDepth || (s.deliveredRetentionMaxAge > 0 && activeDeliveredCount+len(prepared) > s.maxDepth) {
-			if !s.dropOldestQueuedLocked() {
+			victim := s.dropOldestQueuedLocked()
+			if victim == nil {
+				s.restoreDroppedLocked(dropped)
 				return 0, ErrQueueFull
 			}
+			dropped = append(dropped, victim)
 			activeCount = s.activeCountLocked()
 			activeDeliveredCount = s.activeDeliveredCountLocked()
 		}
 	}
 
 	if pressure := s.memoryPressureStatusLocked(); pressure.Active {
+		s.restoreDroppedLocked(dropped)
 		s.memoryPressureRejects++
 		return 0, ErrMemoryPressure
 	}
@@ -459,7 +473,9 @@ func envelopeRetainedBytes(env *Envelope) int64 {
 	return size
 }
 
-func (s *MemoryStore) dropOldestQueuedLocked() bool {
+// dropOldestQueuedLocked evicts the oldest queued item and returns it (nil if
+// nothing could be evicted).
+func (s *MemoryStore) dropOldestQueuedLocked() *Envelope {
 	for _, id := range s.order {
 		env := s.items[id]
 		if env == nil {
@@ -468,9 +484,27 @@ func (s *MemoryStore) dropOldestQueuedLocked() bool {
 		if env.State != StateQueued {
 			continue
 		}
-		return s.evictLocked(id, memoryEvictionReasonDropOldest)
+		if !s.evictLocked(id, memoryEvictionReasonDropOldest) {
+			return nil
+		}
+		return env
 	}
-	return false
+	return nil
+}
+
+// restoreDroppedLocked puts back items evicted by dropOldestQueuedLocked
+// during an enqueue that was refused afterwards. Their position in s.order is
+// still intact because eviction does not touch it.
+func (s *MemoryStore) restoreDroppedLocked(dropped []*Envelope) {
+	for _, env := range dropped {
+		if env == nil {
+			continue
+		}
+		s.items[env.ID] = env
+		if s.evictionsTotalByReason[memoryEvictionReasonDropOldest] > 0 {
+			s.evictionsTotalByReason[memoryEvictionReasonDropOldest]--
+		}
+	}
 }
 
 func (s *MemoryStore) maybePruneLocked(now time.Time) {
